@@ -363,17 +363,20 @@ static inline int is_chunked_ctl_char(const unsigned char c) {
  * @returns 1 if it looks valid, 0 if it looks invalid
  */
 static inline int data_probe_chunk_length(htp_connp_t *connp) {
-    if (connp->out_current_read_offset - connp->out_current_consume_offset < 8) {
+    // The line may have started in an earlier data chunk, in which
+    // case its beginning is in the buffer and has to be probed first.
+    size_t buffered = (connp->out_buf != NULL) ? connp->out_buf_size : 0;
+    unsigned char *data = connp->out_current_data + connp->out_current_consume_offset;
+    size_t len = connp->out_current_read_offset - connp->out_current_consume_offset;
+
+    if (buffered + len < 8) {
         // not enough data so far, consider valid still
         return 1;
     }
 
-    unsigned char *data = connp->out_current_data + connp->out_current_consume_offset;
-    size_t len = connp->out_current_read_offset - connp->out_current_consume_offset;
-
     size_t i = 0;
-    while (i < len) {
-        unsigned char c = data[i];
+    while (i < buffered + len) {
+        unsigned char c = (i < buffered) ? connp->out_buf[i] : data[i - buffered];
 
         if (is_chunked_ctl_char(c)) {
             // ctl char, still good.
